@@ -13,6 +13,9 @@ import re
 from harness import core, gens, text, vers
 
 
+PLAIN = ["1", "1.0", "2.36.1", "0.9", "10", "2.36-1"]
+
+
 def family_texts(cls, t):
     fams = []
     nums = list(re.finditer(r"\d+", t))
@@ -29,6 +32,12 @@ def families(r, cls, nbase):
     """lists of version objects of cls that belong together (same base, small variations)"""
     out = []
     bases = gens.valid_pool(r, cls, nbase)
+    # plain dotted numbers too: the most common versions, and the ones fast paths are written for
+    for t in PLAIN:
+        try:
+            bases.append(cls(t))
+        except Exception:  # noqa
+            pass
     mined = gens.mined_suffixes(cls)
     for v in bases:
         for fam in family_texts(cls, v.string):
@@ -56,17 +65,18 @@ def families(r, cls, nbase):
 
 
 def pairs(r, cls, nbase, cap):
-    out = []
+    """the base of every family against each of its variations, both ways round (always kept), then variations against
+    one another (shuffled, up to cap in all)"""
+    primary, secondary = [], []
     for fam in families(r, cls, nbase):
         base = fam[0]
-        for x in fam[1:]:                      # the base against every variation, both ways round
-            out += [(base, x), (x, base)]
+        for x in fam[1:]:
+            primary += [(base, x), (x, base)]
         rest = fam[1:]
         r.shuffle(rest)
-        for a, b in itertools.permutations(rest[:5], 2):   # and variations against one another
-            out.append((a, b))
-    r.shuffle(out)
-    return out[:cap]
+        secondary.extend(itertools.permutations(rest[:5], 2))
+    r.shuffle(secondary)
+    return primary + secondary[: max(0, cap - len(primary))]
 
 
 def rel(a, b):
@@ -199,6 +209,28 @@ def run(ctx, pid, r, viol, classes=None, nbase=None, cap=None):
                     back = vers.res_bool(lambda: vr.VersionRange.from_string(s) == rng and str(vr.VersionRange.from_string(s)) == s)
                     if back != "OK true" and not (c11_known(lo.string) or c11_known(hi.string) or c11_known(str(lo)) or c11_known(str(hi))):
                         bad(f"{name}: the range >={lo.string!r}|<{hi.string!r} prints as {s!r}, which does not read back as the same range ({back})", inputs=inp)
+                elif pid == "C17":
+                    if x == "eq":
+                        continue
+                    lo, hi = (a, b) if x == "lt" else (b, a)
+                    if getattr(rcls, "scheme", None) not in vr.RANGE_CLASS_BY_SCHEMES or vr.RANGE_CLASS_BY_SCHEMES[rcls.scheme] is not rcls:
+                        continue
+                    if not all(text.version_text_ok(str(v)) for v in (lo, hi)) or any(c11_known(v.string) or c11_known(str(v)) for v in (lo, hi)):
+                        continue
+                    rng = rcls(constraints=[C("GE", lo), C("LT", hi)])
+                    before = [lo in rng, hi in rng]
+                    steps = [("print+parse", lambda g: vr.VersionRange.from_string(str(g))),
+                             ("parse(simplify, validate)", lambda g: vr.VersionRange.from_string(str(g), simplify=True, validate=True)),
+                             ("invert twice", lambda g: g.invert().invert()),
+                             ("rebuild from the reversed constraints", lambda g: type(g)(constraints=list(reversed(g.constraints))))]
+                    cur, hist = rng, []
+                    for label, f in steps:
+                        cur = f(cur)
+                        hist.append(label)
+                        after = [lo in cur, hi in cur]
+                        if after != before or not (cur == rng):
+                            bad(f"{name}: {rng} after {hist} is {cur}; membership of {lo.string!r}, {hi.string!r}: {before} -> {after}", inputs=dict(inp, history=list(hist)))
+                            break
                 elif pid == "C13":
                     if x == "eq":
                         continue
